@@ -47,6 +47,7 @@ inductive Chunk where
   | shutdown (cum : Nat)
   | shutdownAck
   | shutdownComplete
+  | abort
   deriving Repr, DecidableEq, Inhabited
 
 abbrev Pkt := List Chunk
@@ -78,6 +79,8 @@ structure Ep where
   wSA : Bool := false    -- willSendShutdownAck
   wSC : Bool := false    -- willSendShutdownComplete
   scp : Bool := false    -- shutdownCompletePending
+  scr : Bool := false    -- shutdownCompleteReceived
+  wAb : Bool := false    -- willSendAbort
   t2 : Nat := 0          -- t2Shutdown.state: 0 stopped, 1 started, 2 closed
   ack : Nat := ackIdle   -- ackState
   imm : Bool := false    -- immediateAckTriggered (per inbound packet)
@@ -85,7 +88,7 @@ structure Ep where
   snd : Snd := {}
   rcv : Rcv := {}
   -- callers and loops
-  sd : Nat := 0                -- Shutdown call: 0 none passed the gate, 1 waiting, 2 returned nil
+  sd : Nat := 0                -- Shutdown call: 0 none passed the gate, 1 waiting, 2 returned nil, 3 returned ErrShutdownIncomplete
   callAt : Nat := 0            -- ghost: number of accepted writes when the call passed the gate
   dead : Bool := false         -- closeWriteLoopCh closed, read loop and write loop gone, streams unregistered
   connFailed : Bool := false   -- ghost: the loops ended because the transport under this endpoint failed
@@ -102,10 +105,12 @@ def Ep.hasData (e : Ep) : Bool := !e.snd.pend.isEmpty || e.snd.cum < e.snd.sentq
 def Ep.inflightHas (e : Ep) (t : Nat) : Bool := e.snd.cum ≤ t && t < e.snd.sentq.length
 
 /-- Go: close() + what follows from it: the conn is closed so the read loop returns (state closed, every
-stream unregistered with the read error), the write loop returns (timers closed), closeWriteLoopCh is
-closed so a waiting Shutdown returns nil -/
+stream unregistered with the read error), the write loop returns (timers closed; a pending ABORT is marshalled in
+its last pass onto the closed conn and never reaches the wire), closeWriteLoopCh is closed so a waiting Shutdown
+returns: nil if the peer's SHUTDOWN-ACK or SHUTDOWN-COMPLETE was received, ErrShutdownIncomplete otherwise -/
 def close (e : Ep) : Ep :=
-  { e with st := stClosed, t2 := 2, dead := true, sd := if e.sd == 1 then 2 else e.sd }
+  { e with st := stClosed, t2 := 2, dead := true, wAb := false,
+           sd := if e.sd == 1 then (if e.scp || e.scr then 2 else 3) else e.sd }
 
 /-- Go: advanceShutdownAfterDataDrain(state) -/
 def advance (e : Ep) (state : Nat) : Ep :=
@@ -200,7 +205,7 @@ def handleShutdownAck (e : Ep) : Ep :=
 
 /-- Go: handleShutdownComplete -/
 def handleShutdownComplete (e : Ep) : Ep :=
-  if e.st == stShutdownAckSent then close { e with t2 := t2stop e.t2 } else e
+  if e.st == stShutdownAckSent then close { e with t2 := t2stop e.t2, scr := true } else e
 
 def handleChunk (e : Ep) : Chunk → Ep
   | .data t m s k => handleData e t m s k
@@ -208,6 +213,7 @@ def handleChunk (e : Ep) : Chunk → Ep
   | .shutdown c => handleShutdown e c
   | .shutdownAck => handleShutdownAck e
   | .shutdownComplete => handleShutdownComplete e
+  | .abort => close e    -- Go: handleAbort: close(); the error return ends the read loop
 
 /-- Go: handleChunksEnd -/
 def chunksEnd (e : Ep) : Ep :=
@@ -308,6 +314,7 @@ def gatherState (e : Ep) (d : List (List (Nat × Nat))) : Ep × List Pkt × Bool
 
 /-- Go: gatherOutbound (the terminal SHUTDOWN-COMPLETE first, then priority packets, then the per-state part) -/
 def gather (e : Ep) (d : List (List (Nat × Nat))) : Ep × List Pkt × Bool :=
+  if e.wAb then ({ e with wAb := false }, [[.abort]], false) else   -- Go: gatherAbortPacket, terminal
   if e.wSC then gatherShut e else
   let r0 := gatherPrio e
   let r := gatherState r0.1 d
@@ -374,6 +381,12 @@ def openOk (e : Ep) : Bool :=
 (closeWriteLoopCh closed, state closed, streams unregistered), the write loop follows -/
 def closeConn (e : Ep) : Ep := if e.dead then e else { close e with connFailed := true }
 
+/-- Go: Association.Close: close() (and the wait for the read loop) -/
+def closeApi (e : Ep) : Ep := if e.dead then e else close e
+
+/-- Go: Association.Abort up to its wait: the ABORT is left to the write loop -/
+def abortCall (e : Ep) : Ep := { e with wAb := true }
+
 /-! ## the two-endpoint system -/
 
 structure Sys where
@@ -393,6 +406,8 @@ inductive Op where
   | ackt (x : Bool)
   | read (x : Bool) (s : Nat)
   | closeConn (x : Bool)
+  | closeApi (x : Bool)
+  | abort (x : Bool)
   deriving Repr, DecidableEq
 
 def Sys.init : Sys := {}
@@ -415,6 +430,8 @@ def Sys.step (s : Sys) : Op → Sys
   | .ackt x => s.put x (ackFire (s.ep x)) []
   | .read x sid => s.put x (read (s.ep x) sid) []
   | .closeConn x => s.put x (closeConn (s.ep x)) []
+  | .closeApi x => s.put x (closeApi (s.ep x)) []
+  | .abort x => s.put x (abortCall (s.ep x)) []
 
 def Sys.run (s : Sys) (ops : List Op) : Sys := ops.foldl Sys.step s
 
